@@ -1,6 +1,7 @@
 import FluteModel.Drv.Util
 import FluteModel.Recv
 import FluteModel.RecvMini
+import FluteModel.RecvFull
 /-
   Line-protocol driver of engine `recv` (model side).  `Recv` instantiated with the `Mini` object.
 
@@ -22,6 +23,8 @@ open Flute Flute.Recv
 
 structure DState where
   st : Option (State Mini.Obj) := none
+  /-- the same receiver with the full object model `ObjRecv` (`RecvFull.lean`): must print the same -/
+  st2 : Option (State Full.Any) := none
   dead : Bool := false
 
 def init : DState := {}
@@ -115,7 +118,7 @@ def insertStable (x : Nat × String) : List (Nat × String) → List (Nat × Str
 def sortStable (l : List (Nat × String)) : List (Nat × String) :=
   l.foldl (fun acc x => insertStable x acc) []
 
-def showOut (s : State Mini.Obj) (r : String) (evs : List Ev) : String :=
+def showOut {σ : Type} (s : State σ) (r : String) (evs : List Ev) : String :=
   let es := (sortStable (evs.filterMap showEv)).map (·.2)
   joinSp ([r, toString s.objects.length, toString s.errors.length] ++ es)
 
@@ -123,21 +126,67 @@ def showRes : Res → String
   | .ok => "OK"
   | .err => "ERR"
 
+def commaNat (l : List Nat) : String := if l.isEmpty then "-" else ",".intercalate (l.map toString)
+
+def insertNat (x : Nat × String) : List (Nat × String) → List (Nat × String)
+  | [] => [x]
+  | y :: r => if x.1 < y.1 then x :: y :: r else y :: insertNat x r
+
+/-- registries that the per-call line does not show: `fdt_current` (ids, newest first),
+    `|fdt_receivers|`, `|objects_completed|`, bytes held by FDT writers, and for every live object the
+    FDT instance it is attached to (the state-level trace of the ghost `attach` events) -/
+def showProbe {σ : Type} (s : State σ) (fdtIdOf : σ → Option Nat) : String :=
+  let fb := (s.fdtCurrent.map (·.bytes)).foldl (· + ·) 0 + (s.fdtReceivers.map (·.2.bytes)).foldl (· + ·) 0
+  let att := (s.objects.foldl (fun acc kv => insertNat (kv.1, s!"{kv.1}:{match fdtIdOf kv.2 with | some i => toString i | none => "-"}") acc) []).map (·.2)
+  s!"fc={s.fdtCurrent.length}:{commaNat (s.fdtCurrent.map (·.fdtId))} fr={s.fdtReceivers.length} cp={s.completed.length} fb={fb} att={if att.isEmpty then "-" else ",".intercalate att}"
+
+def fdtIdMini (o : Mini.Obj) : Option Nat := o.fdtId
+def fdtIdFull : Full.Any → Option Nat
+  | .inl m => m.fdtId
+  | .inr f => f.st.fdtId
+
 def runOp (d : DState) (s : State Mini.Obj) (op : Op) : DState × String :=
-  match step Mini.iface s op with
+  match Recv.step Mini.iface s op with
   | .error _ => ({ d with dead := true }, "PANIC")
-  | .ok (s', r, evs) => ({ d with st := some s' }, showOut s' (showRes r) evs)
+  | .ok (s', r, evs) =>
+    let line := showOut s' (showRes r) evs
+    -- second instantiation: the full object model
+    match d.st2 with
+    | none => ({ d with st := some s' }, line)
+    | some t =>
+      match Recv.step Full.iface t op with
+      | .error _ => ({ d with st := some s', st2 := none }, line ++ " XMODEL:PANIC")
+      | .ok (t', r2, evs2) =>
+        let line2 := showOut t' (showRes r2) evs2
+        ({ d with st := some s', st2 := some t' }, if line2 = line then line else line ++ " XMODEL:" ++ line2)
+
+/-- `0` | `1` | `T<tois|->/F<ids|->`: which time-outs have elapsed -/
+def stale? (s : String) : Option Stale :=
+  if s = "0" then some ⟨fun _ => false, fun _ => false⟩
+  else if s = "1" then some ⟨fun _ => true, fun _ => true⟩
+  else
+    match s.splitOn "/" with
+    | [t, f] =>
+      if t.startsWith "T" ∧ f.startsWith "F" then
+        let lst (x : String) : Option (List Nat) := if x = "-" then some [] else (x.splitOn ",").mapM nat?
+        match lst (t.drop 1).toString, lst (f.drop 1).toString with
+        | some tl, some fl => some ⟨fun k => tl.contains k, fun k => fl.contains k⟩
+        | _, _ => none
+      else none
+    | _ => none
 
 def step (d : DState) (args : List String) : DState × String :=
   match args with
   | "fz" :: _ => (d, "fz")
   | "fzc" :: _ => (d, "fz")
   | "expect" :: _ => (d, "ok")
+  | "sleep" :: _ => (d, "ok")
   | "cfg" :: me :: st :: ot :: mc :: once :: chk :: _ =>
     match nat? me, bool? st, bool? ot, nat? mc, bool? once, bool? chk with
     | some me, some st, some ot, some mc, some once, some chk =>
-      ({ st := some (State.init { maxObjectsError := me, sessionTimeout := st, objectTimeout := ot,
-                                  maxCache := mc, receiveOnce := once, expCheck := chk }), dead := false }, "ok")
+      let cfg : Config := { maxObjectsError := me, sessionTimeout := st, objectTimeout := ot,
+                            maxCache := mc, receiveOnce := once, expCheck := chk }
+      ({ st := some (State.init cfg), st2 := some (State.init cfg), dead := false }, "ok")
     | _, _, _, _, _, _ => (d, "bad-op")
   | _ =>
   if d.dead then (d, "dead") else
@@ -157,12 +206,20 @@ def step (d : DState) (args : List String) : DState × String :=
       match int? now, nat? toi, bool? co, bool? cs, optNat? fid, optInt? sct, fti? fti, pid? pid, nat? plen, ans? ans with
       | some now, some toi, some co, some cs, some fid, some sct, some fti, some pid, some plen, some ans =>
         runOp d s (.data (.pkt { toi, closeObject := co, closeSession := cs, fdtId := fid, sct, fti, pid, plen,
-                                 dlen := hx.length / 2 }) now ans)
+                                 dlen := hx.length / 2,
+                                 raw := (unhex hx).getD [] }) now ans)
       | _, _, _, _, _, _, _, _, _, _ => (d, "bad-op")
     | ["cleanup", now, stale] =>
-      match int? now, bool? stale with
-      | some now, some stale => runOp d s (.cleanup now ⟨fun _ => stale, fun _ => stale⟩)
+      match int? now, stale? stale with
+      | some now, some stale => runOp d s (.cleanup now stale)
       | _, _ => (d, "bad-op")
+    | ["probe"] =>
+      let line := showProbe s fdtIdMini
+      match d.st2 with
+      | none => (d, line)
+      | some t =>
+        let line2 := showProbe t fdtIdFull
+        (d, if line2 = line then line else line ++ " XMODEL:" ++ line2)
     | ["isexp", el] =>
       match bool? el with
       | some el => (d, if isExpired s el then "exp 1" else "exp 0")
